@@ -150,6 +150,11 @@ func runHandlers(t *testing.T, w *vt.Writer, s *hScenario) {
 		ip := net.IPv4(198, 51, 100, byte(10+i%200))
 		host := fmt.Sprintf("secret-bridge-%d-%d.example.net", s.Seed, i)
 		markers = append(markers, ip.String(), host)
+		// what a real TCP connection returns when the peer resets it during the relay phase: both addresses in the text
+		peer := net.IPv4(203, 0, 113, byte(1+i%250))
+		markers = append(markers, peer.String())
+		relayErr := &net.OpError{Op: "read", Net: "tcp", Source: &net.TCPAddr{IP: ip, Port: 443}, Addr: &net.TCPAddr{IP: peer, Port: 51234},
+			Err: os.NewSyscallError("read", syscall.ECONNRESET)}
 		w.Emit(vt.Ev{"event": "HBegin", "kind": cs.Kind, "fail": cs.Fail})
 		l := wire.NewLink(false, 0)
 		l.A.SetAddrs(nil, &net.TCPAddr{IP: ip, Port: 40000 + i})
@@ -182,7 +187,7 @@ func runHandlers(t *testing.T, w *vt.Writer, s *hScenario) {
 					l.WaitFor(5*time.Second, func(a, _ wire.State) bool { return a.Outbox >= 15 || a.Closed })
 					out = append(out, l.A.Take()...)
 					if cs.Fail == "relay" {
-						lr.B.Close()
+						lr.A.DeliverErr(relayErr)
 					} else {
 						l.A.DeliverEOF()
 					}
@@ -209,7 +214,7 @@ func runHandlers(t *testing.T, w *vt.Writer, s *hScenario) {
 			if cs.Fail == "none" || cs.Fail == "relay" {
 				l.A.Deliver([]byte("hello OR port"))
 				if cs.Fail == "relay" {
-					l.A.DeliverErr(syscall.ECONNRESET)
+					l.A.DeliverErr(relayErr)
 				}
 			}
 		}
